@@ -634,7 +634,7 @@ def run(chk, tier):
         (r'Channel::dispatch_tcp_probe$', 'api', 'push', 'ArrayVec::push after the is_full() eviction (tcp_probes:capacity rule below)'),
         (r'Ipv4::make_ipv4_packet$', 'slice-index', '', 'ipv4_buf[..20 + |payload|] of a MAX_PACKET_SIZE buffer: the inner packet is packet_size − 20 octets under the MIN..=MAX_PACKET_SIZE guard (C11.R2 length equalities, C11.R4 size guards), the Paris payload is 2 octets'),
         (r'Ipv6::make_udp_packet$', 'slice-index', '', 'udp_buf[..8 + |payload|] of a MAX_PACKET_SIZE − 40 buffer: |payload| = packet_size − 48 under the size guard, 2 for Paris, MAGIC + offset for Dublin (C11.R2 / R4, C07.R6)'),
-        (r'Ipv6::dispatch_udp_probe_raw$', 'slice-index', '', 'dublin_payload[..MAGIC + (sequence − initial_sequence)]: proved at this site by C07.R6 (imported) under the round bound offset ≤ BUFFER_SIZE − 1 + MAX_TTL'),
+        (r'within:Ipv6::dispatch_udp_probe_raw$', 'slice-index', '', 'dublin_payload[..MAGIC + (sequence − initial_sequence)], in the function or in a helper it hands the buffer to: proved at the site by C07.R6 (imported) under the round bound offset ≤ BUFFER_SIZE − 1 + MAX_TTL'),
         (r'within:Ipv[46]::dispatch_udp_probe_raw$||!ctx', 'BoundsCheck', 'index', 'payload()[0..2] of the Paris datagram, whose payload is the 2-octet sequence (C11.R3 Paris pair)'),
     ]
     audit_scope(chk, prog, cg, roots, scope, tier, 'R7', 'R7t', ALLOW7, [], hints=hints, invariants=[inv7],
